@@ -104,6 +104,9 @@ pub enum FaultKind {
     CrashAfterBytes(usize),
     /// remove_dir_all removed the file but not the directory when the process died
     CrashInsideRemoveDir,
+    /// every read of the operation returns at most k bytes (legal for read(2): pipes, network file
+    /// systems, signals) — multi-byte characters get split across reads
+    ShortReads(usize),
 }
 
 #[derive(Clone, Debug, Serialize, Deserialize, PartialEq)]
@@ -206,7 +209,12 @@ fn install_disk() {
                 d.fired.push(k.name());
                 return FsDecision::Fail(k.kind());
             }
-            let fire = matches!(&d.plan, Some(f) if f.at_call == idx);
+            if let (Some(Fault { kind: FaultKind::ShortReads(k), .. }), FsOp::Read { len, .. }) = (&d.plan, op) {
+                let k = (*k).clamp(1, (*len).max(1));
+                d.fired.push("fault.short_read");
+                return FsDecision::Short(k);
+            }
+            let fire = matches!(&d.plan, Some(f) if f.at_call == idx && !matches!(f.kind, FaultKind::ShortReads(_)));
             if !fire {
                 return FsDecision::Proceed;
             }
@@ -281,6 +289,7 @@ fn install_disk() {
                         std::panic::panic_any(SimCrash);
                     }
                 },
+                FaultKind::ShortReads(_) => FsDecision::Proceed, // handled above, for every read
             }
         })
     })));
@@ -1022,8 +1031,9 @@ fn gen_fault(rng: &mut Rng, for_restore: bool) -> Fault {
     if for_restore {
         return Fault {
             at_call: rng.usize(3),
-            kind: match rng.usize(4) {
+            kind: match rng.usize(5) {
                 0 => FaultKind::CrashBefore,
+                1 | 2 => FaultKind::ShortReads(*rng.pick(&[1usize, 1, 2, 3, 5, 64])),
                 _ => FaultKind::Err(ek(rng)),
             },
         };
@@ -1091,6 +1101,7 @@ impl World for StoreWorld {
                 "probe.crash_states_enumerated",
                 "probe.put_with_default_ttl",
                 "probe.two_digit_id_suffix",
+                "fault.short_read",
             ],
             quick_runs: 250_000,
             thorough_runs: 2_000_000,
